@@ -2,6 +2,7 @@
 package main
 
 import (
+	"strings"
 	"fmt"
 
 	"go.dedis.ch/kyber/v4"
@@ -163,6 +164,16 @@ func pedRun(x *hx.Ctx, h hist) {
 	case "rot":
 		order = append(order[1:], order[0])
 	}
+	// "silent:a+b": the responses of verifiers a and b reach the dealer only (the other verifiers never see them and,
+	// after the timeout, count them as complaints)
+	silent := map[int]bool{}
+	if strings.HasPrefix(h.respFault, "silent:") {
+		for _, f := range strings.Split(strings.TrimPrefix(h.respFault, "silent:"), "+") {
+			var k int
+			fmt.Sscanf(f, "%d", &k)
+			silent[k] = true
+		}
+	}
 	justs := map[int]*vss.Justification{}
 	deliver := func(to int, r *vss.Response) error {
 		if to == n {
@@ -183,7 +194,7 @@ func pedRun(x *hx.Ctx, h hist) {
 			continue
 		}
 		for to := 0; to <= n; to++ {
-			if to == i {
+			if to == i || (silent[i] && to < n) {
 				continue
 			}
 			if to < n && !hasDeal[to] {
@@ -266,6 +277,19 @@ func pedRun(x *hx.Ctx, h hist) {
 		}
 		goodJ := justs[i]
 		for to := 0; to < n; to++ {
+			if silent[i] && h.timeout == "before" && hasDeal[to] && to != i && sidClass[to] == "dealt" {
+				// the complaint never reached this verifier, which counted i as a complaint when the timeout passed; the
+				// dealer's (correct) justification for i arrives afterwards. Whether it is accepted is recorded; if it is,
+				// it clears the complaint of verifier i and of nobody else.
+				err := vs[to].ProcessJustification(j)
+				x.Outcome(fmt.Sprintf("justification for silent verifier %d accepted by %d after the timeout", i, to), err == nil)
+				if err == nil && valid {
+					views[to].ok[i] = true
+				} else if !valid {
+					views[to].bad = true
+				}
+				continue
+			}
 			if !hasDeal[to] || !views[to].present[i] {
 				continue
 			}
@@ -343,7 +367,7 @@ func pedRun(x *hx.Ctx, h hist) {
 			x.Require(fmt.Sprintf("party %d: dealer stays bad for good", i), !cert)
 		}
 		x.Outcome(fmt.Sprintf("party %d certified", i), cert)
-		if allHonest {
+		if allHonest && len(silent) == 0 {
 			missing := 0
 			var a int
 			if _, err := fmt.Sscanf(h.respFault, "absent:%d", &a); err == nil && a != i {
